@@ -883,6 +883,14 @@ func runR82(c *Ctx) {
 				if call, ok := in.(*ssa.Call); ok && inLoop(li, call.Block()) && isFuncNamed(calleeObj(call), rel("internal/strings"), "", "NewPointer") {
 					mints = true
 				}
+				// a loop that grows a byte blob and stores cells builds a column as well, whatever it mints them with
+				if call, ok := in.(*ssa.Call); ok && inLoop(li, call.Block()) && builtinName(call) == "append" {
+					if sl, ok := call.Type().Underlying().(*types.Slice); ok {
+						if b, ok := sl.Elem().Underlying().(*types.Basic); ok && b.Kind() == types.Byte {
+							mints = true
+						}
+					}
+				}
 			})
 			if !mints {
 				continue
@@ -912,7 +920,28 @@ func runR82(c *Ctx) {
 					switch t := v.(type) {
 					case *ssa.Call:
 						if !isFuncNamed(calleeObj(t), rel("internal/strings"), "", "NewPointer") {
-							bad = "the result of " + describe(t)
+							// a wrapper all of whose returns are NewPointer calls mints a cell as well; anything else
+							// (pointer arithmetic on an existing cell) may lose the length or the null bit
+							wrapper := false
+							if g := t.Call.StaticCallee(); g != nil && g.Blocks != nil {
+								wrapper = true
+								n := 0
+								eachInstr(g, func(i2 ssa.Instruction) {
+									if r, ok := i2.(*ssa.Return); ok {
+										n++
+										rc, isCall := r.Results[0].(*ssa.Call)
+										if len(r.Results) != 1 || !isCall || !isFuncNamed(calleeObj(rc), rel("internal/strings"), "", "NewPointer") {
+											wrapper = false
+										}
+									}
+								})
+								if n == 0 {
+									wrapper = false
+								}
+							}
+							if !wrapper {
+								bad = "the result of " + describe(t) + ", which is not strings.NewPointer(offset, length, isNull)"
+							}
 						} else if !inLoop(li, t.Block()) {
 							// a cell minted once before the loop and shared by every row (constant columns) is fine
 						}
